@@ -310,30 +310,83 @@ _PATTERN = st.lists(st.integers(0, 6), min_size=3, max_size=3)
 _NONZERO_BLEND = st.sampled_from([1.0, 0.5, -2.0, 1e-3])
 
 
+MB_CLASSES = ['dense', 'dense', 'only_x', 'only_y', 'only_z', 'only_w', 'only_w', 'one_vertex', 'all_equal']
+_MB_CLASS = st.sampled_from(MB_CLASSES)
+_CH = {'only_x': 0, 'only_y': 1, 'only_z': 2, 'only_w': 3}
+
+
 @_cache
 def _disp_body(cfg: GenConfig, power: int, multiblend: bool):
+    vec4 = st.lists(gnums(), min_size=4, max_size=4)
+    shape = st.none()
+    if multiblend:
+        # which "shape" the multi_blend / multi_alpha vectors of the whole displacement have (see _fix_multiblend)
+        shape = st.fixed_dictionaries({
+            'b_class': _MB_CLASS, 'a_class': _MB_CLASS, 'force': _NONZERO_BLEND,
+            'x': st.integers(0, 16), 'y': st.integers(0, 16), 'b': vec4, 'a': vec4,
+        })
     return st.fixed_dictionaries({
         'power': st.just(power), 'pos': vec3(cfg), 'elev': exact_floats(), 'flags': st.integers(0, 15), 'allowed': _ALLOWED,
         'palette': st.lists(vertex_descs(cfg, multiblend), min_size=1, max_size=5 if power <= 2 else 7),
-        'pattern': _PATTERN, 'force_blend': _NONZERO_BLEND if multiblend else st.none(),
+        'pattern': _PATTERN, 'mb_shape': shape,
     })
 
 
+def _shape_vectors(palette: list, field: str, cls: str, single: dict, force: float) -> None:
+    """Give the ``field`` ('b' = multi_blend, 'a' = multi_alpha) vectors of a displacement one of the shapes:
+    dense (as drawn), only_<channel> (every other channel zero on every vertex), one_vertex (zero everywhere except the
+    ``single`` override vertex), all_equal (the same vector on every vertex)."""
+    mbs = [v['mb'] for v in palette if v['mb'] is not None]
+    if cls in _CH:
+        ch = _CH[cls]
+        for mb in mbs:
+            mb[field] = [val if i == ch else 0.0 for i, val in enumerate(mb[field])]
+        vec = [val if i == ch else 0.0 for i, val in enumerate(single[field])]
+        if not vec[ch]:
+            vec[ch] = force
+        single[field] = vec          # guarantees that the channel is really used somewhere
+    elif cls == 'one_vertex':
+        for mb in mbs:
+            mb[field] = [0.0, 0.0, 0.0, 0.0]
+        if not any(single[field]):
+            single[field] = [force, 0.0, 0.0, 0.0]
+    elif cls == 'all_equal':
+        vec = list(single[field])
+        if field == 'b' and not any(vec):
+            vec[3] = force
+        for v in palette:
+            if v['mb'] is None:
+                v['mb'] = {'b': [0.0, 0.0, 0.0, 0.0], 'a': [0.0, 0.0, 0.0, 0.0], 'c': None}
+            v['mb'][field] = list(vec)
+        single[field] = None
+    else:
+        single[field] = None
+
+
 def _fix_multiblend(disp: dict) -> dict:
-    """Precondition: a displacement with multiblend data has at least one non-zero multi_blend -> force it at (0, 0)."""
-    force = disp.pop('force_blend')
-    if force is not None:
+    """Apply the drawn multiblend shape; keep the precondition that a displacement carrying multiblend data has at least
+    one non-zero multi_blend (the writer keys the whole block on that)."""
+    shape = disp.pop('mb_shape')
+    if shape is None:
+        return disp
+    single = {'x': shape['x'], 'y': shape['y'], 'b': shape['b'], 'a': shape['a']}
+    _shape_vectors(disp['palette'], 'b', shape['b_class'], single, shape['force'])
+    _shape_vectors(disp['palette'], 'a', shape['a_class'], single, shape['force'])
+    if single['b'] is not None or single['a'] is not None:
+        disp['single'] = single
+    size = 2 ** disp['power'] + 1
+    if not any(any((disp_vertex_desc(disp, x, y)['mb'] or {'b': ()})['b']) for y in range(size) for x in range(size)):
         v0 = disp['palette'][disp['pattern'][2] % len(disp['palette'])]
         if v0['mb'] is None:
-            v0['mb'] = {'b': [force, 0.0, 0.0, 0.0], 'a': [0.0, 0.0, 0.0, 0.0], 'c': None}
-        elif not any(v0['mb']['b']):
-            v0['mb']['b'] = [force] + list(v0['mb']['b'][1:])
+            v0['mb'] = {'b': [0.0, 0.0, 0.0, 0.0], 'a': [0.0, 0.0, 0.0, 0.0], 'c': None}
+        v0['mb']['b'] = [shape['force']] + list(v0['mb']['b'][1:])
     return disp
 
 
 @_cache
 def disp_descs(cfg: GenConfig = DEFAULT):
-    """Displacement data: a palette of vertex descriptors laid out by (a*x + b*y + c) % len(palette)."""
+    """Displacement data: a palette of vertex descriptors laid out by (a*x + b*y + c) % len(palette), plus an optional
+    ``single`` override {'x', 'y', 'b', 'a'} replacing multi_blend / multi_alpha of exactly one vertex."""
     alts = []
     for power in range(1, max(1, min(4, cfg.max_disp_power)) + 1):
         alts.append(_disp_body(cfg, power, False))
@@ -344,9 +397,46 @@ def disp_descs(cfg: GenConfig = DEFAULT):
 
 
 def disp_vertex_desc(disp: dict, x: int, y: int) -> dict:
+    """The vertex descriptor at grid position (x, y) of a displacement descriptor."""
     a, b, c = disp['pattern']
     pal = disp['palette']
-    return pal[(a * x + b * y + c) % len(pal)]
+    vd = pal[(a * x + b * y + c) % len(pal)]
+    single = disp.get('single')
+    if single is not None:
+        size = 2 ** disp['power'] + 1
+        if x == single['x'] % size and y == single['y'] % size:
+            mb = dict(vd['mb'] or {'b': [0.0, 0.0, 0.0, 0.0], 'a': [0.0, 0.0, 0.0, 0.0], 'c': None})
+            if single.get('b') is not None:
+                mb['b'] = single['b']
+            if single.get('a') is not None:
+                mb['a'] = single['a']
+            vd = dict(vd, mb=mb)
+    return vd
+
+
+def disp_mb_classes(disp: dict) -> list:
+    """Histogram classes of the multiblend data actually laid out on the grid: 'mb:<shape>' / 'ma:<shape>'."""
+    size = 2 ** disp['power'] + 1
+    res = []
+    for field, tag in (('b', 'mb'), ('a', 'ma')):
+        vecs = []
+        for y in range(size):
+            for x in range(size):
+                mb = disp_vertex_desc(disp, x, y)['mb']
+                vecs.append(tuple(mb[field]) if mb is not None else (0.0, 0.0, 0.0, 0.0))
+        nonzero = [v for v in vecs if any(v)]
+        if not nonzero:
+            continue
+        channels = {i for v in nonzero for i in range(4) if v[i]}
+        if len(channels) == 1:
+            res.append(f'{tag}:only_{"xyzw"[channels.pop()]}')
+        if len(nonzero) == 1:
+            res.append(f'{tag}:one_vertex')
+        if len(set(vecs)) == 1:
+            res.append(f'{tag}:all_equal')
+        if len(channels) > 1 and len(nonzero) > 1 and len(set(vecs)) > 1:
+            res.append(f'{tag}:dense')
+    return res
 
 
 @_cache
@@ -1063,6 +1153,7 @@ def desc_stats(desc: dict) -> dict:
         'nasty_mats', 'nasty_fixup_vars', 'ent_groups', 'ent_vis', 'solid_groups', 'comments', 'logical_pos', 'visgroups', 'nested_visgroups', 'groups',
         'cameras', 'cordons', 'viewports', 'inst_vis', 'nodeid', 'max_power',
     ], 0)
+    s['labels'] = set()      # extra histogram classes (multiblend shapes)
 
     def solid(sd, world):
         s['hidden_solids'] += bool(sd.get('hidden'))
@@ -1082,7 +1173,10 @@ def desc_stats(desc: dict) -> dict:
             if d:
                 s['disps'] += 1
                 s['max_power'] = max(s['max_power'], d['power'])
-                s['multiblend_disps'] += any(v.get('mb') for v in d['palette'])
+                classes = disp_mb_classes(d)
+                s['multiblend_disps'] += bool(classes) or any(v.get('mb') for v in d['palette'])
+                for cls in classes:
+                    s['labels'].add(cls)
 
     def ent(ed, world):
         for k, v in ed.get('keys', []):
